@@ -7,7 +7,7 @@ import numpy as np
 
 from common import R
 
-LEAN_MODULES = ["PyomaVerif.Props.C10", "PyomaVerif.Mutants.C10", "PyomaVerif.Props.C09", "PyomaVerif.Props.WiringRun", "PyomaVerif.Props.C09All"]
+LEAN_MODULES = ["PyomaVerif.Props.C10", "PyomaVerif.Mutants.C10", "PyomaVerif.Props.C09", "PyomaVerif.Props.WiringRun", "PyomaVerif.Props.C09All", "PyomaVerif.Props.C18MacLink"]
 THEOREMS = [
     # C10 o C09: the labels of every class are SC_apply of the FILTERED tables it returns; stable <=> kept pole whose
     # first nearest kept pole of the previous order is within the tolerances; removed poles never stable / never reference
@@ -41,6 +41,9 @@ THEOREMS = [
     "PV.C10.C10_mac_formula",
     "PV.C10.C10_shape",
     "PV.C10.C10_error_iff",
+    # depth round: Stab.scMac is the C18 model of gen.MAC on 1-D arguments
+    "PV.C18.C18_scMac_eq_macEntry",
+    "PV.C18.C18_scMac_eq_mac",
     "PV.C10.Mutants.next_order_mutant_differs",
     "PV.C10.Mutants.nan_argmin_mutant_differs",
     "PV.C10.Mutants.last_nearest_mutant_differs",
@@ -52,7 +55,8 @@ RULE = (
     "frequencies, zero dampings, zero shapes, NaN in one table only): labels / exception class identical, inputs not mutated; "
     "cases with a tested ratio within 1e-9 of its tolerance are skipped and counted. oracle: brute-force restatement of the "
     "property in exact rationals on the same generator (positive f, xi; ordmin on the step grid), and result.Lab vs "
-    "result.{Fn,Xi,Phi}_poles after real SSIcov/SSIdat/pLSCF runs. distinct = distinct (rows, cols, d, ordmin, ordmax, step, NaN-count)"
+    "result.{Fn,Xi,Phi}_poles after real SSIcov/SSIdat/pLSCF runs; gen.MAC on two 1-D shapes (1..12 components: Gaussian, integer, grid, "
+    "collinear, nearly collinear, zero shape, NaN component) vs Stab.scMac (op sc_mac; = macEntry? by C18_scMac_eq_macEntry) at 1e-12, NaN <-> none. distinct = distinct (rows, cols, d, ordmin, ordmax, step, NaN-count)"
 )
 def pre_build(ctx):
     import translate_hc
@@ -313,6 +317,54 @@ def near_threshold(Fn, Xi, Phi, eF, eX, eP):
 
 
 # ----------------------------------------------------------------------------- correspondence
+def _corr_sc_mac(ctx, g):
+    """the driver op `sc_mac` (Stab.scMac, proved equal to the C18 model macEntry?: C18_scMac_eq_macEntry) against
+    gen.MAC on two 1-D shapes: value at a rounding-only tolerance, NaN <-> none (NaN component, zero shape)."""
+    from pyoma2.functions import gen
+
+    d = ctx.rng.choice([1, 2, 3]) if ctx.rng.random() < 0.3 else ctx.rng.randint(1, 12)
+    kind = ctx.rng.choice(["gauss", "gauss", "int", "grid", "collinear", "near", "zero", "nan"])
+    if kind in ("int", "zero"):
+        x = (g.integers(-4, 5, size=d) + 1j * g.integers(-4, 5, size=d)).astype(complex)
+        y = (g.integers(-4, 5, size=d) + 1j * g.integers(-4, 5, size=d)).astype(complex)
+    elif kind == "grid":
+        x = (g.integers(-2048, 2049, size=d) + 1j * g.integers(-2048, 2049, size=d)) / GRID
+        y = (g.integers(-2048, 2049, size=d) + 1j * g.integers(-2048, 2049, size=d)) / GRID
+    else:
+        x = g.standard_normal(d) + 1j * g.standard_normal(d)
+        y = g.standard_normal(d) + 1j * g.standard_normal(d)
+    if kind == "collinear":
+        y = complex(g.standard_normal(), g.standard_normal()) * x
+    elif kind == "near":
+        y = complex(g.standard_normal(), g.standard_normal()) * x + 10.0 ** ctx.rng.uniform(-12, -2) * y
+    elif kind == "zero":
+        if ctx.rng.random() < 0.5:
+            x = np.zeros(d, dtype=complex)
+        else:
+            y = np.zeros(d, dtype=complex)
+    elif kind == "nan":
+        (x if ctx.rng.random() < 0.5 else y)[ctx.rng.randrange(d)] = complex(math.nan, ctx.rng.choice([0.0, math.nan]))
+    if kind not in ("zero", "nan") and (not np.any(x != 0) or not np.any(y != 0)):
+        x[0], y[0] = 1.0, 1.0 + 1.0j
+    enc = lambda v: [None if (math.isnan(z.real) or math.isnan(z.imag)) else [R(float(z.real)), R(float(z.imag))] for z in v]  # noqa: E731
+    inp = {"d": d, "x": enc(x), "y": enc(y)}
+    with np.errstate(all="ignore"):
+        val = gen.MAC(x.copy(), y.copy())
+    scalar = np.ndim(val) == 0
+    v = float(np.real(val)) if scalar else math.nan
+    m = ctx.model("sc_mac", **inp)
+    if m is None:
+        ok = scalar and not math.isfinite(v) and kind in ("zero", "nan")
+    else:
+        mv = Fraction(m)
+        err = abs(v - float(mv)) if math.isfinite(v) else math.inf
+        ok = scalar and err <= 1e-12 and 0 <= mv <= 1 and kind not in ("zero", "nan")
+        if math.isfinite(err) and err / 1e-12 > ctx.dist.get("margin_corr_sc_mac", 0.0):
+            ctx.dist["margin_corr_sc_mac"] = float(f"{err / 1e-12:.3g}")
+    ctx.corr("MAC[1-D]", ok, inp, m, v if scalar else str(np.shape(val)), (kind, d))
+    ctx.count(f"corr_sc_mac_{kind}")
+
+
 def correspondence(ctx):
     sc = _sc()
     n = ctx.n(1500, 12000)
@@ -345,6 +397,10 @@ def correspondence(ctx):
         if k == 0:
             ctx.sample({"rows": rows, "cols": cols, "d": d, "ordmin": ordmin, "ordmax": ordmax, "step": step,
                         "err": [eF, eX, eP], "Fn_col0": Fn[:, 0].tolist()})
+    # after the SC_apply stream, so that its random sequence is unchanged
+    g_mac = ctx.nprng()
+    for _ in range(ctx.n(300, 6000)):
+        _corr_sc_mac(ctx, g_mac)
 
 
 # ----------------------------------------------------------------------------- oracle
